@@ -25,6 +25,7 @@ SHAPES = [
     ("construct", [[0, 0], [0, 0]], False, Q), ("construct", [[1, 1], [0, 0]], False, Q), ("construct", [[0, 0]] * 3, False, Q),
     ("record", [[2, 2]], False, Q),
     ("loaders", [[0, 0], [0, 0]], False, Q),
+    ("rebuild", [[1, 1]], False, Q),
     ("construct", [[1, 1], [1, 1]], False, T, dict(budget=2400, shard=8)),
     ("construct", [[1, 0]] * 3, False, T, dict(budget=2400, shard=9)),
     ("construct", [[0, 1]] * 3, False, T, dict(budget=2400, shard=9)),
@@ -34,7 +35,7 @@ SHAPES = [
 
 def jobs(tier):
     return shape_jobs(SHAPES, tier, {"construct": ["ok", "dupU", "dupP"], "record": ["valid", "invalid"],
-                                     "loaders": ["done"]})
+                                     "loaders": ["done"], "rebuild": ["dupP", "dupU"]})
 
 
 def clash(groups):
@@ -149,4 +150,26 @@ def build(job):
         except ValueError:
             eng.fail("from_reverse_prefix_map rejected a reverse prefix map (distinct URI prefixes can never clash)")
         return "done"
-    return dict(construct=construct, record=record, loaders=loaders)[fn]
+    def rebuild(eng):
+        """Records that gained synonyms after they were first used (in-place merge) must still be described completely
+        to a strict constructor: a second owner of an acquired synonym is a clash."""
+        api = eng.mods.api
+        (r,) = mk_recs(eng, params["shape"])
+        eng.assume(And(distinct(r.all_p), distinct(r.all_u)))
+        c = api.Converter([api.Record(prefix=r.prefix, uri_prefix=r.uri_prefix)])
+        c.add_prefix(r.psyn[0], r.uri_prefix, merge=True)          # acquires a CURIE-prefix synonym
+        c.add_prefix(r.prefix, r.usyn[0], merge=True)              # acquires a URI-prefix synonym
+        sub = c.get_subconverter([r.prefix])                       # copies of the records
+        q, w = eng.var("q"), eng.var("w")
+        eng.assume(And([_s(q) != _s(x) for x in r.all_p], [_s(w) != _s(x) for x in r.all_u]))
+        side = eng.choice("side", ["curie", "uri"])
+        extra = api.Record(prefix=r.psyn[0], uri_prefix=w) if side == "curie" else api.Record(prefix=q, uri_prefix=r.usyn[0])
+        for conv in (c, sub):
+            try:
+                api.Converter([*conv.records, extra])
+                eng.fail("a strict constructor accepted a second owner of a synonym acquired by an in-place merge")
+            except (api.DuplicatePrefixes, api.DuplicateURIPrefixes) as e:
+                eng.expect(type(e).__name__ == ("DuplicatePrefixes" if side == "curie" else "DuplicateURIPrefixes"), "wrong duplicate error class")
+        return "dupP" if side == "curie" else "dupU"
+
+    return dict(construct=construct, record=record, loaders=loaders, rebuild=rebuild)[fn]
